@@ -51,7 +51,7 @@ TargetOf(b) == IF b = "D1" THEN "T1" ELSE "T2"
 (* ---- configuration helpers; c = [place, verd, only1, route, path, dmarc, kind, mod, mfail]      *)
 (* kind: "pipe" recording targets; "rpipe" the real remote target behind block D1; "remote" the  *)
 (* remote target alone with an already flagged message; "qpipe" the real queue behind D1: what   *)
-(* the queue later hands to its own target is the call "relay" on target "Q1"                    *)
+(* the queue later hands to its own target (the real remote target) is the call "relay" on "Q1"   *)
 AllChecks(c)    == DOMAIN c.place
 ChecksIn(c, b)  == {k \in AllChecks(c) : b \in c.place[k]}
 RIndex(r)       == CHOOSE i \in 1..3 : RcptSeq[i] = r
@@ -139,7 +139,8 @@ ObsTgt(o, c, t, op, arg, res, q) ==
             ELSE o1
       o3 == V(o2, q => mayQ, "QuarantineWithoutVerdict")
   \* the remote target refuses a flagged message for good (a transient failure is not a refusal)
-  IN V(o3, (c.kind \in {"remote", "rpipe"} /\ q /\ op \in {"rcpt", "body", "bodyNA"}) => res = "perm",
+  IN V(o3, ((c.kind \in {"remote", "rpipe"} /\ q /\ op \in {"rcpt", "body", "bodyNA"})
+            \/ (c.kind = "qpipe" /\ q /\ op = "relay")) => res = "perm",
        "RemoteAcceptedQuarantined")
 
 (* the recipient modifier of destination block blk was asked to rewrite r; res = "ok" | "err" *)
